@@ -186,7 +186,12 @@ def layout(module, plain=False, deco_rng=None):
             for i, nifs in enumerate(s[2]):
                 it = "MI(%d)" % (len(lines) + 1) if i == 0 else "()"
                 parts.append("for _%d in %s" % (i, it) + "".join(" if T" for _ in range(nifs)))
-            k = emit("_ = [0 " + " ".join(parts) + "]", ind)
+            # assignment, annotated assignment and bare expression statement are separate cases of processStatement (a walrus-wrapped
+            # comprehension `(c := [...])` is NOT counted by pyscn: buildExpressionStatement returns the parenthesised node itself, so the
+            # NodeExpr/NamedExpr branch of processStatement is unreachable; the property text speaks of statement-level comprehensions only)
+            kk = len(lines) + 1
+            pre, post = [("_ = [0 ", "]"), ("[0 ", "]"), ("_: list = [0 ", "]"), ("_ = {0 ", "}"), ("_ = {0: 0 ", "}"), ("_ = (0 ", ")")][((kk * 2654435761) >> 7) % 6]
+            k = emit(pre + " ".join(parts) + post, ind)
             return ('comp', k, list(s[2]))
         if c == 'if':
             k = emit("if C(%d):" % (len(lines) + 1), ind)
